@@ -47,6 +47,9 @@
 //     appended to the trace as `("set resp.Compress", ["true"])`; values read
 //     from abstract objects are re-read (fresh parameters) after any opaque
 //     call or such a write;
+//   - a field of abstract pointer type of a translated struct
+//     (`srvReqInfo.Userinfo`) is not part of the Lean structure: reading it is
+//     an opaque `AbsPtr` parameter (its nil-ness);
 //   - []error literals, append on them and errors.Join are lists of optional
 //     texts and "first non-nil" (errors.Join is non-nil iff an element is);
 //   - any other call is *opaque*: its result becomes an extra parameter of the
@@ -734,6 +737,9 @@ func (c *fctx) expr(e ast.Expr) ex {
 // slice, a field of a library struct) into an extra parameter holding its value.
 func (c *fctx) opaqueValue(e ast.Expr) ex {
 	lt := c.t.leanType(c.typeOf(e))
+	if lt == "" && c.t.valType(c.typeOf(e)) == "AbsPtr" {
+		lt = "AbsPtr" // a field holding a pointer to an abstract object: its nil-ness
+	}
 	if lt == "" {
 		fail("expression %s has untranslatable type %s", c.show(e), c.typeOf(e))
 	}
@@ -783,6 +789,9 @@ func (c *fctx) selector(x *ast.SelectorExpr) ex {
 		fail("embedded field path %s", c.show(x))
 	}
 	if c.t.leanType(sel.Obj().Type()) == "" {
+		if c.t.valType(sel.Obj().Type()) == "AbsPtr" {
+			return c.opaqueValue(x)
+		}
 		fail("field %s has untranslatable type %s", c.show(x), sel.Obj().Type())
 	}
 	base := c.expr(x.X)
